@@ -26,9 +26,12 @@ RULE = ("commit trees of 4-8 commits over two tables (pk, a, b) with values in {
         "(so edits overlap and conflict often); per tree 6-9 operations: cherry-pick / revert of a random commit on a random head (biased to the algebraic "
         "cases head = parent(c) and c = head) and rebase plans over the commits tip..onto with random actions, order changes and dropped steps; "
         "non-trivial = at least one operation succeeded with a content different from its head; distinct by case JSON")
-ASSUMPTIONS = ["operations name commits that have a parent inside the generated tree (the root commit, whose parent is dolt's schema-less initial commit, is never cherry-picked or reverted)",
+ASSUMPTIONS = ["schema changes: only the picked / reverted commit changes the schema of t1 relative to the merge base (ADD COLUMN int / DROP COLUMN); HEAD has the merge base's schema; "
+               "column order is not compared (columns sorted by id); rebase plans are generated over commits of one schema",
+               "operations name commits that have a parent inside the generated tree (the root commit, whose parent is dolt's schema-less initial commit, is never cherry-picked or reverted)",
                "every generated commit differs from its parent (dolt refuses to create / cherry-pick empty commits by default)"]
-REQUIRED_TAGS = ["cp-ok", "cp-conflict", "cp-nochange", "cp-on-parent", "rv-ok", "rv-conflict", "rv-latest", "rb-ok", "rb-conflict", "rb-invalid",
+REQUIRED_TAGS = ["cp-resolved", "rv-resolved", "rb-resolved", "cp-aborted", "rv-aborted", "rb-aborted", "resolved-ours", "resolved-theirs",
+                 "schema-cp-ok", "schema-rv-ok", "schema-cp-conflict", "cp-ok", "cp-conflict", "cp-nochange", "cp-on-parent", "rv-ok", "rv-conflict", "rv-latest", "rb-ok", "rb-conflict", "rb-invalid",
                  "rb-squash", "rb-fixup", "rb-drop", "rb-reword", "rb-reorder", "rb-became-empty", "cellwise-merge"]
 
 NT = 2
@@ -78,6 +81,85 @@ def _chain(parents, tip, onto):
     return list(reversed(out))
 
 
+COLID = {"a": 1, "b": 2, "d": 3}
+
+
+def _widen(rows, old_cols, new_cols, rng):
+    """rows of t1 re-expressed in new_cols (dropped columns vanish, new columns NULL or a value)"""
+    out = {}
+    for (t, k), v in rows.items():
+        if t != 1:
+            out[(t, k)] = list(v)
+            continue
+        cur = dict(zip(old_cols, v))
+        out[(t, k)] = [cur[c] if c in cur else (rng.choice(VALS) if rng.random() < 0.5 else None) for c in new_cols]
+    return out
+
+
+def gen_schema_case(rng):
+    """small tree where some commits ALTER t1 (add column d / drop column b); only cherry-pick / revert ops"""
+    n = rng.randint(3, 6)
+    parents = [-1]
+    cols = [["a", "b"]]
+    contents = [{}]
+    for _ in range(rng.randint(2, 4)):
+        contents[0][(rng.choice([1, 1, 2]), rng.choice(KEYS))] = [rng.choice(VALS), rng.choice(VALS)]
+    for i in range(1, n):
+        p = i - 1 if rng.random() < 0.5 else rng.randrange(i)
+        parents.append(p)
+        pc = cols[p]
+        r = rng.random()
+        nc = list(pc)
+        if r < 0.35 and "d" not in pc:
+            nc = pc + ["d"]
+        elif r < 0.6 and "b" in pc:
+            nc = [c for c in pc if c != "b"]
+        if nc != pc:
+            new = _widen(contents[p], pc, nc, rng)
+            if rng.random() < 0.4:
+                new = _mutate_s(rng, new, len(nc))
+        else:
+            new = _mutate_s(rng, contents[p], len(pc))
+        cols.append(nc)
+        contents.append(new)
+    ops = []
+    for _ in range(rng.randint(4, 7)):
+        c = rng.randrange(1, n)
+        kind = rng.choice(["cp", "rv"])
+        # HEAD has the schema of the merge base (parent of c for cherry-pick, c itself for revert): only the
+        # picked / reverted commit changes the schema (see ASSUMPTIONS)
+        want = cols[parents[c]] if kind == "cp" else cols[c]
+        cands = [h for h in range(n) if cols[h] == want]
+        if kind == "cp":
+            hd = parents[c] if rng.random() < 0.3 else rng.choice(cands)
+        else:
+            hd = c if rng.random() < 0.3 else rng.choice(cands)
+        ops.append({"kind": kind, "head": hd, "c": c, "res": rng.choice(["", "", "abort"])})
+    return {"commits": [{"parent": parents[i], "rows": _rows_json(contents[i]), "cols1": cols[i]} for i in range(n)], "ops": ops}
+
+
+def _mutate_s(rng, rows, w1):
+    for _ in range(40):
+        new = {k: list(v) for k, v in rows.items()}
+        for _ in range(rng.choice([1, 1, 2])):
+            t = rng.choice([1, 1, 1, 2]); k = rng.choice(KEYS)
+            w = w1 if t == 1 else 2
+            if (t, k) in new:
+                if rng.random() < 0.2:
+                    del new[(t, k)]
+                else:
+                    new[(t, k)][rng.randrange(w)] = rng.choice(VALS)
+            else:
+                new[(t, k)] = [rng.choice(VALS) for _ in range(w)]
+        if new != rows:
+            return new
+    new = dict(rows); new[(2, 9)] = [0, 0]
+    return new
+
+
+RES = ["", "", "ours", "theirs", "abort"]
+
+
 def gen_one(rng):
     n = rng.randint(4, 8)
     parents = [-1]
@@ -108,11 +190,11 @@ def gen_one(rng):
         if r < 0.3:
             c = rng.randrange(1, n)
             hd = parents[c] if rng.random() < 0.25 else rng.randrange(n)
-            ops.append({"kind": "cp", "head": hd, "c": c})
+            ops.append({"kind": "cp", "head": hd, "c": c, "res": rng.choice(RES)})
         elif r < 0.6:
             c = rng.randrange(1, n)
             hd = c if rng.random() < 0.3 else rng.randrange(n)
-            ops.append({"kind": "rv", "head": hd, "c": c})
+            ops.append({"kind": "rv", "head": hd, "c": c, "res": rng.choice(RES)})
         else:
             for _ in range(10):
                 tip = rng.randrange(1, n); onto = rng.randrange(n)
@@ -128,13 +210,13 @@ def gen_one(rng):
                 i = rng.randrange(len(steps) - 1); steps[i], steps[i + 1] = steps[i + 1], steps[i]
             if rng.random() < 0.2 and len(steps) > 1:
                 del steps[rng.randrange(len(steps))]
-            ops.append({"kind": "rb", "head": tip, "c": 0, "onto": onto, "plan": steps})
+            ops.append({"kind": "rb", "head": tip, "c": 0, "onto": onto, "plan": steps, "res": rng.choice(RES)})
     return {"commits": [{"parent": parents[i], "rows": _rows_json(contents[i])} for i in range(n)], "ops": ops}
 
 
 def gen_cases(rng, tier):
-    n = 110 if tier == "quick" else 3000
-    return [gen_one(rng) for _ in range(n)]
+    n = 90 if tier == "quick" else 3000
+    return [gen_one(rng) for _ in range(n)] + [gen_schema_case(rng) for _ in range(n // 2)]
 
 
 # ---- Coq printing ----
@@ -147,7 +229,12 @@ def _content(rows):
 
 
 ACT = {"pick": "Pick", "reword": "Reword", "squash": "Squash", "fixup": "Fixup", "drop": "Drop"}
-KIND = {"ok": 0, "conflict": 1, "nochange": 2, "invalid": 3, "err": 4}
+KIND = {"ok": 0, "conflict": 1, "nochange": 2, "invalid": 3, "err": 4, "resolved": 5, "aborted": 6, "schemaconflict": 1}
+MODE = {"": "Stop", None: "Stop", "ours": "(Resolve Ours)", "theirs": "(Resolve Theirs)", "abort": "Abort"}
+
+
+def _schema(cols):
+    return cq_list(str(COLID[c]) for c in (cols or ["a", "b"]))
 
 
 def _kind(o):
@@ -157,21 +244,41 @@ def _kind(o):
 
 
 def _op(o):
+    m = MODE[o.get("res", "")]
     if o["kind"] == "cp":
-        return "OCp %d %d" % (o["head"], o["c"])
+        return "OCp %d %d %s" % (o["head"], o["c"], m)
     if o["kind"] == "rv":
-        return "ORv %d %d" % (o["head"], o["c"])
-    return "ORb %d %s" % (o["onto"], cq_list("(%s, %d)" % (ACT[s["a"]], s["c"]) for s in o["plan"]))
+        return "ORv %d %d %s" % (o["head"], o["c"], m)
+    return "ORb %d %d %s %s" % (o["head"], o["onto"], cq_list("(%s, %d)" % (ACT[s["a"]], s["c"]) for s in o["plan"]), m)
+
+
+def _canon_cols(x):
+    """column order is presentation only: sort t1's columns by id and permute the cells accordingly"""
+    cols = x.get("cols1") or ["a", "b"]
+    order = sorted(range(len(cols)), key=lambda i: COLID[cols[i]])
+    if order == list(range(len(cols))):
+        return x
+    rows = [dict(r, c=[r["c"][i] for i in order]) if r["t"] == 1 else r for r in x["rows"]]
+    return dict(x, cols1=[cols[i] for i in order], rows=rows)
+
+
+def _obs1(x):
+    x = _canon_cols(x)
+    k = _kind(x)
+    final = k in ("ok", "resolved", "aborted")
+    return "{| k_kind := %d; k_schema := %s; k_data := %s; k_new := %d; k_restored := %s; k_pauses := %d |}" % (
+        KIND[k], _schema(x.get("cols1")) if final else "[]", _content(x["rows"]) if final else "[]",
+        max(0, x["newcnt"]) if final else 0, "true" if x.get("restored") else "false", x.get("pauses", 0) if final else 0)
 
 
 def coq_case(case, out):
-    cs = cq_list("(%s, %s)" % ("None" if c["parent"] < 0 else "Some %d" % c["parent"], _content(c["rows"])) for c in case["commits"])
+    cs = cq_list("(%s, %s, %s)" % ("None" if c["parent"] < 0 else "Some %d" % c["parent"], _schema(c.get("cols1")), _content(c["rows"])) for c in case["commits"])
     ops = cq_list(_op(o) for o in case["ops"])
     o = out.get("obs")
     if o is None or out.get("err") or out.get("panic") or len(o.get("ops") or []) != len(case["ops"]):
-        obs = "[]" if case["ops"] else "[{| k_kind := 9; k_data := []; k_new := 0 |}]"
+        obs = "[]" if case["ops"] else "[{| k_kind := 9; k_schema := []; k_data := []; k_new := 0; k_restored := false; k_pauses := 0 |}]"
     else:
-        obs = cq_list("{| k_kind := %d; k_data := %s; k_new := %d |}" % (KIND[_kind(x)], _content(x["rows"]), max(0, x["newcnt"])) for x in o["ops"])
+        obs = cq_list(_obs1(x) for x in o["ops"])
     return "((%s, %s), %s)" % (cs, ops, obs)
 
 
@@ -182,9 +289,14 @@ def classify(case, out):
     tags = []
     par = [c["parent"] for c in case["commits"]]
     rows = [c["rows"] for c in case["commits"]]
+    sch = any(c.get("cols1") not in (None, ["a", "b"]) for c in case["commits"])
     for op, r in zip(case["ops"], o["ops"]):
         k = _kind(r)
         tags.append("%s-%s" % (op["kind"], k))
+        if k == "resolved":
+            tags.append("resolved-" + op.get("res", ""))
+        if sch:
+            tags.append("schema-%s-%s" % (op["kind"], k))
         if op["kind"] == "cp" and par[op["c"]] == op["head"]:
             tags.append("cp-on-parent")
         if op["kind"] == "rv" and op["c"] == op["head"]:
@@ -197,7 +309,7 @@ def classify(case, out):
                 tags.append("rb-reorder")
             if k == "ok" and r["newcnt"] < sum(1 for s in op["plan"] if s["a"] in ("pick", "reword")):
                 tags.append("rb-became-empty")
-        if op["kind"] in ("cp", "rv") and k == "ok":
+        if op["kind"] in ("cp", "rv") and k == "ok" and not sch:
             # a row present in head, commit and parent with all three different: merged cell-wise
             hd = {(x["t"], x["k"]): x["c"] for x in rows[op["head"]]}
             cc = {(x["t"], x["k"]): x["c"] for x in rows[op["c"]]}
@@ -210,7 +322,7 @@ def classify(case, out):
 
 def nontrivial(case, out):
     o = out.get("obs")
-    return bool(o) and any(x["kind"] == "ok" for x in o.get("ops", []))
+    return bool(o) and any(x["kind"] in ("ok", "resolved") for x in o.get("ops", []))
 
 
 def shrink_candidates(case):
@@ -239,9 +351,9 @@ def neighbours(case, rng):
     n = len(case["commits"])
     for _ in range(60):
         c = rng.randrange(1, n)
-        out.append({"commits": case["commits"], "ops": [{"kind": rng.choice(["cp", "rv"]), "head": rng.randrange(n), "c": c}]})
+        out.append({"commits": case["commits"], "ops": [{"kind": rng.choice(["cp", "rv"]), "head": rng.randrange(n), "c": c, "res": rng.choice(RES)}]})
     return out
 
 
 def search_cases(rng):
-    return [gen_one(rng) for _ in range(40)]
+    return [gen_one(rng) for _ in range(30)] + [gen_schema_case(rng) for _ in range(10)]
